@@ -19,7 +19,9 @@ RULE = (
     "of the FIFO run of 12 small workflows, EVERY choice (which deliverable row next x ack / withhold) to depth 3 (quick) "
     "/ 6 (thorough), database copied at each choice point, states pruned on a canonical hash, FIFO drain below the bound. "
     "Plus redelivery to a different worker: 2-4 worker threads interleaved at SQL-statement granularity, messages forgotten "
-    "once (no ack, lock lapses) and picked up by whichever thread polls next, compared with the FIFO reference. "
+    "once (no ack, lock lapses) and picked up by whichever thread polls next - in half of the runs locks also lapse WHILE the first worker is still "
+    "handling the message (a further thread clears locks at random points): an execution may then repeat the step in flight but "
+    "must never begin after an earlier execution's result was recorded -, compared with the FIFO reference. "
     "Non-trivial = the delivered sequence of "
     "(message type, target) differs from the reference's; distinct = by hash of that sequence."
 )
@@ -305,7 +307,41 @@ def _race(case: dict) -> dict:
 
     pol = il.RandomPolicy(rng.randrange(1 << 30), switch_p=rng.choice([0.1, 0.3, 0.5])) if case["spec_i"] % 3 else il.PCT(rng.randrange(1 << 30), d=rng.choice([2, 3, 5]), horizon=rng.choice([400, 1500]))
     records: list = []
-    run, info = il.run_workers(spec, rng.choice([2, 3, 4]), pol, ack_fn=ack_fn, records=records, max_msgs=900, watchdog=120.0)
+    lapse_in_flight = case["spec_i"] % 2 == 1
+    extra = {}
+    holder: dict = {}
+    lapses = [0]
+    if lapse_in_flight:
+        # the visibility lock of a message runs out WHILE its first worker is still handling it (slow handler,
+        # short lock): the row becomes deliverable again and another thread may pick it up at any point of the
+        # first handling - also between its result commit and its processed mark
+        def mk(w, stop):
+            def body() -> None:
+                sched = holder["s"]
+                for _ in range(rng.randint(3, 12)):
+                    il.idle_points(sched, rng.randrange(5, 120), stop)
+                    if stop[0]:
+                        return
+                    try:
+                        c = w.queue._get_connection()
+                        cur = c.execute("UPDATE queue_messages SET locked_until = NULL WHERE locked_until IS NOT NULL")
+                        c.commit()
+                        lapses[0] += cur.rowcount
+                    except Exception:
+                        try:
+                            w.queue._get_connection().rollback()
+                        except Exception:
+                            pass
+
+            return body
+
+        extra["L"] = mk
+
+    def with_sched(sched, w):
+        holder["s"] = sched
+        return None
+
+    run, info = il.run_workers(spec, rng.choice([2, 3, 4]), pol, ack_fn=ack_fn, records=records, max_msgs=900, watchdog=120.0, extra_bodies=extra, with_sched=with_sched)
     obs: Counter = Counter({"evaluations": 1})
     if run is None:
         obs["scheduler_failed"] += 1
@@ -313,7 +349,42 @@ def _race(case: dict) -> dict:
     obs["interleaved_runs"] += 1
     obs["redeliveries"] += len(forgotten)
     obs["reordered_runs"] += 1
+    obs["locks_lapsed_in_flight"] += lapses[0]
     v = compare_with_reference(spec, ref, run, data=False)
+    if lapse_in_flight:
+        # a second worker that picks the message up while the first is still executing the body repeats the step
+        # in flight - legitimate; what must never happen is an execution that BEGINS after the result of an earlier
+        # execution of the same task (same iteration) was recorded (= its CompleteTask was pushed)
+        v = [x for x in v if "execution-count-differs:extra" not in x["sig"]]
+        tl = oracles.Timeline(run.audit)
+        task_of = {(m["owner"], m["name"]): eid for eid, m in tl.meta.items() if m["kind"] == "task"}
+        pushed: dict[str, list[int]] = {}
+        for a in run.audit:
+            if a["kind"] == "queue" and a["op"] == "ins" and a["c"] == "CompleteTask":
+                try:
+                    pushed.setdefault(__import__("json").loads(a["d"]).get("task_id"), []).append(a["seq"])
+                except Exception:
+                    pass
+        rearm: dict[str, list[int]] = {}
+        for a in run.audit:
+            if a["kind"] == "status" and a["op"] == "task" and a["d"] == "NOT_STARTED":
+                rearm.setdefault(a["a"], []).append(a["seq"])
+        for r in run.ledger:
+            tid = task_of.get((r["stage_id"], f"t{r['task']}"))
+            if tid is None:
+                continue
+            lo = max([q for q in rearm.get(tid, []) if q <= r["seq"]] or [0])  # start of this task's current iteration
+            rec = [q for q in pushed.get(tid, []) if lo < q <= r["seq"]]
+            obs["executions_checked_against_recorded_results"] += 1
+            if not rec:
+                continue
+            # the delivery this execution belongs to (task bodies run on pool threads: tie by task id and time);
+            # a handler that was polled BEFORE the result was recorded is still the step in flight
+            mine = sorted((d for d in records if d["type"] == "RunTask" and d.get("task_id") == tid and d["post_poll_seq"] <= r["seq"]), key=lambda d: d["post_poll_seq"])
+            if mine and mine[-1]["pre_seq"] >= rec[0]:
+                v.append(viol("C02/executed-again-after-result-recorded", f"{r['ref']}.t{r['task']}@{r['iter']} executed by a RunTask delivery polled at seq >= {mine[-1]['pre_seq']}, after the result of an earlier execution had been recorded (CompleteTask pushed at seq {rec[0]})"))
+                break
+            obs["repeats_of_the_step_in_flight"] += 1
     v2, o = effect_oracles(spec, run)
     obs.update({k: n for k, n in o.items() if k != "marked_redeliveries"})
     v = oracles.attribute(v + [x for x in v2 if "handled-although-marked" not in x["sig"]], run, "C02")
